@@ -10,7 +10,7 @@ GOENV = dict(os.environ, GOFLAGS="-mod=mod", GOPROXY="off", GOSUMDB="off", GOTOO
              CGO_ENABLED=os.environ.get("CGO_ENABLED", "1"))
 
 TAGS = {1: "RES", 2: "VALS", 3: "IDX", 4: "COUNT", 5: "KEYS", 6: "TRIG", 7: "EMIT", 8: "FRESH",
-        9: "RESTORE", 10: "REPLICA"}
+        9: "RESTORE", 10: "REPLICA", 11: "WF"}
 
 
 def sh(cmd, cwd=None, env=None, timeout=None, check=True):
